@@ -69,6 +69,37 @@ def load_positions(ctx):
     return rec
 
 
+def revalidate_oracle_live(ctx, rec):
+    """thorough tier: run the recorder against live PySpark again and compare with the vendored recording"""
+    out = os.path.join(ctx.build, "live_positions.json")
+    env = dict(os.environ)
+    env["PYSPARK_PYTHON"] = core.PY
+    try:
+        p = subprocess.run([core.PY, os.path.join(core.VERIF, "oracle", "record_c16.py"), "--out", out],
+                           stdout=subprocess.PIPE, stderr=subprocess.PIPE, text=True, env=env, timeout=900)
+    except subprocess.TimeoutExpired:
+        ctx.log("live PySpark re-validation timed out (vendored recording used)")
+        return
+    if p.returncode != 0 or not os.path.exists(out):
+        ctx.log("live PySpark did not start here (vendored recording used): " + p.stderr[-200:].replace("\n", " "))
+        ctx.coverage["oracle_live_revalidation"] = "not available"
+        return
+    with open(out) as f:
+        live = json.load(f)
+    diff = []
+    for name, info in rec["functions"].items():
+        a = [(c["pos"], c["variant"], c["live"].split(":")[0]) for c in info["cases"]]
+        b = [(c["pos"], c["variant"], c["live"].split(":")[0]) for c in live["functions"].get(name, {}).get("cases", [])]
+        if a != b:
+            diff.append(name)
+    ctx.coverage["oracle_live_revalidation"] = {"pyspark": live.get("pyspark_version"), "functions": len(live["functions"]),
+                                                 "differing_functions": diff}
+    if diff:
+        ctx.broken("oracle:live-pyspark-differs", f"live PySpark answers differ from the vendored recording for {diff[:8]}")
+    else:
+        ctx.log(f"live PySpark {live.get('pyspark_version')} re-validated the vendored recording ({len(live['functions'])} functions)")
+
+
 def build_entries(gen, rec, engines):
     """[(fname, engine, pos, variant, args)] for every function exported by the engine's functions module and every
     vector on which live PySpark treats the string as a column name"""
@@ -95,12 +126,21 @@ def entry_coq(ent) -> str:
 
 
 def entries_file(entries) -> str:
+    """grouped by call vector: (function, position, vector) x the engines whose functions module exports the function"""
+    groups = {}
+    for f, e, pos, variant, args in entries:
+        key = (f, pos, listlit([c16_positions.coq_arg(a, '', False) if a['t'] != 'test' else 'STest' for a in args]))
+        groups.setdefault(key, []).append(e)
     lines = ["(* generated by checks/c16.py from oracle/c16_pyspark_positions.json x engine module exports *)",
              "From SF Require Import C16.Fexp.",
              "From Coq Require Import String List ZArith. Import ListNotations. Open Scope string_scope.",
-             "Definition gen_entries : list entry := ["]
-    lines.append(";\n".join("  " + entry_coq(x) for x in entries))
+             "Definition gen_groups : list (string * nat * list sarg * list string) := ["]
+    lines.append(";\n".join(f"  ({strlit(f)}, {natlit(pos)}, {args}, {listlit([strlit(e) for e in engs])})"
+                            for (f, pos, args), engs in groups.items()))
     lines.append("].")
+    lines.append("Definition gen_entries : list entry :=")
+    lines.append("  flat_map (fun g : string * nat * list sarg * list string =>")
+    lines.append("              let '(f, p, a, es) := g in map (fun e => mkEntry f e p a) es) gen_groups.")
     return "\n".join(lines) + "\n"
 
 
@@ -128,6 +168,8 @@ def call_text(f, args, cname, as_col):
             parts.append(f"col({cname!r})" if as_col else repr(cname))
         elif t == "col":
             parts.append(f"col({a['name']!r})")
+        elif t == "name":
+            parts.append(repr(a["name"]))
         elif t == "lambda":
             parts.append("lambda " + ", ".join("xyz"[: a["n"]]) + ": x")
         elif t == "float":
@@ -188,6 +230,9 @@ def run(ctx: core.Ctx):
     # ---- T3: the real calls.  quick = standalone + duckdb + one rotating engine; thorough = all engines
     rest = [e for e in c16_fexp.ENGINES if e not in ("standalone", "duckdb")]
     engines = c16_fexp.ENGINES if ctx.tier == "thorough" else ["standalone", "duckdb", rest[ctx.seed % len(rest)]]
+    if not proved and ctx.tier != "thorough":
+        ctx.log("proof or T1 did not check: searching for a failing input on ALL engines")
+        engines = c16_fexp.ENGINES
     by_engine = {e: [] for e in engines}
     for i, ent in enumerate(entries):
         if ent[1] in by_engine:
@@ -203,6 +248,8 @@ def run(ctx: core.Ctx):
         ctx.log(f"engine {e}: session class {ans['session_class']}, {len(ans['answers'])} vectors called in both forms")
         for a in ans["answers"]:
             real[a["id"]] = a
+    pys = {(f, c["pos"], c["variant"]): (c.get("pyspark_str"), c.get("pyspark_col"))
+           for f, info in rec["functions"].items() for c in info["cases"]}
     items, metas = [], []
     for i, ent in enumerate(entries):
         a = real.get(i)
@@ -235,7 +282,10 @@ def run(ctx: core.Ctx):
                     "call_with_name": call_text(f, args, cname, False), "call_with_col": call_text(f, args, cname, True),
                     "sqlframe_with_name": pn["str_form"], "sqlframe_with_col": pn["col_form"],
                     "model_verdict": mv, "implementation_verdict": rv,
-                    "pyspark": "builds the same Column for both forms (oracle/c16_pyspark_positions.json)"}
+                    "pyspark": "live PySpark 3.5.9 builds the same Catalyst expression for both forms "
+                               "(oracle/c16_pyspark_positions.json)",
+                    "pyspark_with_name": pys.get((f, pos, variant), (None, None))[0],
+                    "pyspark_with_col": pys.get((f, pos, variant), (None, None))[1]}
             if rv in ("D", "R"):
                 ctx.deviation(signature(f, e, pos),
                               f"{call_text(f, args, cname, False)} on {e}: "
@@ -295,6 +345,8 @@ def run(ctx: core.Ctx):
                                              "model": s["model_verdict"]} for s in soft[:40]],
         "pyspark_vectors_excluded": excluded,
     })
+    if ctx.tier == "thorough":
+        revalidate_oracle_live(ctx, rec)
     ctx.assumptions += [
         "column names are simple identifiers (probe names 'c', 'zz9'): Column('c') (sqlglot.maybe_parse) and col('c') "
         "(exp.to_column) denote the same column reference",
